@@ -11,6 +11,8 @@ RULE = ('rules mode: case = (generated relay-rules.conf with 1..6 pattern sectio
         'destination set, RF, DIVERSE_REPLICAS, hash type, names) -> set(router.getDestinations) vs union over the '
         'reference matcher\'s aggregate names of the reference ring lookup; inputs of one aggregate must share their '
         'destination set; non-trivial = name matching >=1 rule; distinct = (file, configured set, name)')
+RULE_MORE = (' Relay files have up to 16 sections, patterns use upper-case escapes and negated classes; aggregated mode also runs with name caches and several rules over one input pattern.')
+RULE = RULE + RULE_MORE
 EXHAUSTIVE = {'quick': False, 'thorough': False}
 EXHAUSTIVE_OVER = ''
 ASSUMPTIONS = ['literal parts of aggregation patterns are restricted to [a-z0-9_-] (the documented language has no escaping)',
